@@ -5,6 +5,10 @@ database (Model/Residency) on protocol lines.
   begin idx cap_pages=<n> per_page=<n>      reset, index stream
   add <key32hex> <id> <off> <size>  | rm <key> | upd <key> <id> <off> <size> | st <key> <status>
   get <key> | has <key> | iter | count | flush <b> | flushall | save | clear <b> | reload
+  file <b>            bytes of the bucket's .idx file as last written (Model/LsmBytes.serialise with
+                      Model/Jenkins hashes), zero runs of 8+ bytes written `z<n>;`; `none` = no file
+  parse <b> <bytes>   Model/LsmBytes.parseFile + load_index's sort on the given file bytes, then
+                      the bucket's iter_entries
   begin res per_page=<n> batch=<n>           reset, residency stream
   mark <key32hex> | unmark <key> | span <key> <off> <len> | del <key>,<key>,… | delpad <n> <key>,…
   isres <key> | scan | rcount | rsave | rload
@@ -12,6 +16,8 @@ database (Model/Residency) on protocol lines.
 import Driver.Common
 import Cascette.Model.Lsm
 import Cascette.Model.Residency
+import Cascette.Model.LsmBytes
+import Cascette.Model.Jenkins
 open Cascette Drv
 open Cascette.Spec.IndexMap (Entry Op Out bucketOf)
 open Cascette.Model
@@ -89,6 +95,54 @@ def idxOp? : List String → Option Op
   | ["reload"] => some .reload
   | _ => none
 
+/-! ### file bytes -/
+
+/-- `hashlittle(data, 0)` of Model/Jenkins on natural-number bytes. -/
+def jenkH (l : List Nat) : Nat := (Jenkins.hashlittle (l.map (BitVec.ofNat 8)) 0).toNat
+
+def flushZ (z : Nat) (acc : List Char) : List Char :=
+  if z = 0 then acc
+  else if z < 8 then List.replicate (2 * z) '0' ++ acc
+  else (s!"z{z};").toList.reverse ++ acc
+
+/-- hex with zero runs of 8 or more bytes compressed to `z<n>;` (accumulator reversed). -/
+def rleGo : List Nat → Nat → List Char → List Char
+  | [], z, acc => flushZ z acc
+  | b :: r, z, acc =>
+    if b = 0 then rleGo r (z + 1) acc
+    else rleGo r 0 (hexChar (b % 16) :: hexChar (b / 16 % 16) :: flushZ z acc)
+
+def rle (l : List Nat) : String :=
+  if l.isEmpty then "-" else String.ofList (rleGo l 0 []).reverse
+
+partial def unrleGo : List Char → List Nat → Option (List Nat)
+  | [], acc => some acc.reverse
+  | 'z' :: rest, acc =>
+    let ds := rest.takeWhile (· ≠ ';')
+    match (String.ofList ds).toNat?, rest.dropWhile (· ≠ ';') with
+    | some n, ';' :: rest' => if n ≤ 16777216 then unrleGo rest' (List.replicate n 0 ++ acc) else none
+    | _, _ => none
+  | a :: b :: rest, acc =>
+    match hexDigit a, hexDigit b with
+    | some x, some y => unrleGo rest ((16 * x + y) :: acc)
+    | _, _ => none
+  | _, _ => none
+
+def unrle (s : String) : Option (List Nat) := if s == "-" then some [] else unrleGo s.toList []
+
+def showFile (cfg : Lsm.Cfg) (s : Lsm.State) (b : Nat) : String :=
+  match s.disk b with
+  | none => "none"
+  | some img =>
+    match LsmBytes.serialiseImage jenkH cfg.capPages b img with
+    | some bytes => rle bytes
+    | none => "err"
+
+def showParse (b : Nat) (bytes : List Nat) : String :=
+  match LsmBytes.parseFile bytes with
+  | none => "err"
+  | some img => showOut (.entries ((Lsm.iterBucket (Lsm.loadB img)).map fun e => (b, e)))
+
 def keys16? (s : String) : Option (List Nat) :=
   if s == "-" then some [] else
   (s.splitOn ",").foldr (fun x acc => match key16? x, acc with
@@ -129,6 +183,16 @@ def handle (s : St) (toks : List String) : St × String :=
     | _, _ => (s, "bad-op")
   | _ =>
     if s.mode = 1 then
+      match toks with
+      | ["file", b] =>
+        match b.toNat? with
+        | some b => if b < 256 then (s, showFile s.cfg s.idx b) else (s, "bad-op")
+        | none => (s, "bad-op")
+      | ["parse", b, bytes] =>
+        match b.toNat?, unrle bytes with
+        | some b, some bytes => if b < 256 then (s, showParse b bytes) else (s, "bad-op")
+        | _, _ => (s, "bad-op")
+      | _ =>
       match idxOp? toks with
       | some op =>
         let (i, o) := Lsm.step s.cfg s.idx op
